@@ -75,7 +75,15 @@ def r3_error_position(ctx, rule="C07.R3"):
                      if b in eof_side and mir.callee_of(t) in prog.fns and prog.fns[mir.callee_of(t)].crate == "rusty_parser"]
     guards = [(g, b) for g in cands for b, t in g.body.calls() if (t.get("cpath") or "").endswith("is_empty")]
     e = guards[0][0] if guards else pos
-    ctx.decide(len(guards) == 1, rule, rule + ":eof-position-non-empty-guard", e.loc, "is_empty() guard",
+    # ... or it never indexes: `row_col.last()` / `get(..)` answer None for the empty text
+    checked = [g for g in cands for _b, t in g.body.calls()
+               if (t.get("cpath") or "").split("::")[-1] in ("last", "get", "first")]
+    unchecked = [g for g in cands if g is not pos for b, blk in enumerate(g.body.blocks) if not blk.get("c")
+                 if (blk["t"]["k"] == "call" and (blk["t"].get("cpath") or "").endswith("Index::index"))
+                 or any(isinstance(e_, dict) and "i" in e_ for s_ in blk["s"] if s_["k"] == "assign"
+                        for e_ in (s_["r"].get("p") or [0, []])[1])]
+    ctx.decide(len(guards) == 1 or (bool(checked) and not unchecked), rule, rule + ":eof-position-non-empty-guard", e.loc,
+               "is_empty() guard" if guards else "checked access (last / get)",
                "the end-of-input position no longer guards the empty text")
     pp = [g for g in prog.fns.values() if g.name == "program_parser_p" and g.crate == "rusty_parser" and g.kind == "fn"]
     if len(pp) != 1:
